@@ -111,14 +111,20 @@ macro_rules! reuse_body {
     }};
 }
 
+macro_rules! reuse_concrete {
+    ($f:ident, $t:ty) => {
+        fn $f(self, w: &$t) -> Self::Out {
+            reuse_body!(self, w)
+        }
+    };
+}
+
 impl<'a> Visit for Reuse<'a> {
     type Out = (Result<Result<usize, WErr>, Caught>, Vec<UseObs>);
     fn go<W: RtcpPacketWriter>(self, w: &W) -> Self::Out {
         reuse_body!(self, w)
     }
-    fn go_enum(self, w: &PacketBuilder<'_>) -> Self::Out {
-        reuse_body!(self, w)
-    }
+    crate::for_concrete_builders!(reuse_concrete);
 }
 
 fn reuse_oracle(ctx: &str, c: &ReuseCase, st: &mut Stats) -> Verdict {
